@@ -142,6 +142,8 @@ func lsMonitor(cw *caseWriter, tag string, in, obs []uint64) {
 		return int(r[q])
 	}
 	prevInflight := inflightOf(ns)
+	prevLast := lastAtElection
+	prevSnap := ns.sc[sLastSnapIdx]
 	latest := ns.latest
 	for i, o := range parts[1:] {
 		if i >= len(ops) || len(o) == 0 {
@@ -173,12 +175,18 @@ func lsMonitor(cw *caseWriter, tag string, in, obs []uint64) {
 							aborted++
 						}
 					}
+					// ... and the restored snapshot takes an index above every index handed out before (in flight or not)
+					if ls.sc[sLastSnapIdx] != prevSnap && ls.sc[sLastSnapIdx] <= prevLast {
+						cw.monitor("C20", tag, "restored-snapshot-index-not-above-every-earlier-index", "op %d: the restore took index %d, the log already reached %d", i, ls.sc[sLastSnapIdx], prevLast)
+					}
 					if aborted != prevInflight {
 						cw.monitor("C20", tag, "restore-did-not-abort-every-inflight-future", "op %d: %d futures were in flight when the restore ran, %d were failed with ErrAbortedByRestore", i, prevInflight, aborted)
 						cw.monitor("C17", tag, "restore-left-inflight-future-unanswered", "op %d: %d futures were in flight when the restore ran, only %d were answered", i, prevInflight, aborted)
 					}
 				}
 				prevInflight = inflightOf(ls)
+				prevLast = max64(ls.sc[sLastLogIdx], ls.sc[sLastSnapIdx])
+				prevSnap = ls.sc[sLastSnapIdx]
 				latest = ls.latest
 				ci := ls.rest[0]
 				if ci != 0 && ci <= lastAtElection {
